@@ -197,7 +197,7 @@ class GeneInterval(AbstractFeatureIntervalCollection):
         and :func:`GeneInterval.get_merged_cds`.
         """
         # children may be on different strands; the merged feature is on the strand of this gene
-        strand = self.chunk_relative_location.strand
+        strand = self.chromosome_location.strand
         merged = reduce(lambda x, y: x.union(y), (i.reset_strand(strand) for i in intervals))
         interval_starts = [x.start for x in merged.blocks]
         interval_ends = [x.end for x in merged.blocks]
@@ -213,7 +213,7 @@ class GeneInterval(AbstractFeatureIntervalCollection):
             feature_name=self.gene_symbol,
             feature_id=self.gene_id,
             guid=self.guid,
-            parent_or_seq_chunk_parent=self.chunk_relative_location.parent,
+            parent_or_seq_chunk_parent=self._parent_or_seq_chunk_parent,
         )
 
     def get_merged_feature(self) -> FeatureInterval:
